@@ -260,8 +260,10 @@ func (v *VMValue) UnmarshalJSON(input []byte) error {
 		if err == nil {
 			if val, ok := builtinValues[v1.Value.Name]; ok {
 				v.Value = val.Value
+				return nil
 			}
-			return nil
+			// 未知的内置函数名(例如来自其他版本的存档)，不能留下一个 Value 为 nil 的函数值
+			return errors.New("值错误: 未知的内置函数 " + v1.Value.Name)
 		}
 		return err
 	case VMTypeNativeObject:
